@@ -109,3 +109,83 @@ impl UriExt for uri::Rsync {
     }
 }
 
+
+//============ Kani harnesses (verification only) ============================
+//
+// Compiled only by `cargo kani` (which sets `cfg(kani)`); add-only.
+
+#[cfg(kani)]
+mod kani_verif {
+    use super::*;
+
+    /// An arbitrary ASCII string of up to `N` characters.
+    fn any_ascii_str<const N: usize>(buf: &mut [u8; N]) -> &str {
+        *buf = kani::any();
+        let len: usize = kani::any();
+        kani::assume(len <= N);
+        let mut i = 0;
+        while i < N {
+            kani::assume(buf[i] < 0x80);
+            i += 1;
+        }
+        unsafe { std::str::from_utf8_unchecked(&buf[..len]) }
+    }
+
+    /// A URI that consists of its authority only. `has_dubious_authority`
+    /// is the provided method of the trait and only uses `get_authority`.
+    struct Authority<'a>(&'a str);
+
+    impl UriExt for Authority<'_> {
+        fn get_authority(&self) -> &str {
+            self.0
+        }
+
+        fn unique_components(&self) -> (Cow<'_, str>, Digest) {
+            unreachable!()
+        }
+    }
+
+    /// C31 (bounded: ASCII authorities of at most 8 characters): every
+    /// authority containing a colon (explicit port, IPv6 literal) is
+    /// dubious.
+    #[kani::proof]
+    #[kani::unwind(10)]
+    fn authority_with_colon_is_dubious() {
+        let mut buf = [0u8; 8];
+        let authority = any_ascii_str(&mut buf);
+        let at: usize = kani::any();
+        kani::assume(at < authority.len());
+        kani::assume(authority.as_bytes()[at] == b':');
+        assert!(Authority(authority).has_dubious_authority());
+        kani::cover!(authority.len() == 8 && at == 7);
+        kani::cover!(authority.len() == 1);
+    }
+
+    /// C31: `localhost`, dotted-quad IPv4 literals with one-digit octets
+    /// (all 10^4 of them) and a few longer literals are dubious; an
+    /// ordinary host name is not.
+    #[kani::proof]
+    #[kani::unwind(17)]
+    fn localhost_and_ipv4_literals_are_dubious() {
+        assert!(Authority("localhost").has_dubious_authority());
+        let digits: [u8; 4] = kani::any();
+        kani::assume(
+            digits[0] < 10 && digits[1] < 10 && digits[2] < 10
+            && digits[3] < 10
+        );
+        let quad = [
+            b'0' + digits[0], b'.', b'0' + digits[1], b'.',
+            b'0' + digits[2], b'.', b'0' + digits[3],
+        ];
+        let quad = unsafe { std::str::from_utf8_unchecked(&quad) };
+        assert!(Authority(quad).has_dubious_authority());
+        assert!(Authority("192.168.0.1").has_dubious_authority());
+        assert!(Authority("255.255.255.255").has_dubious_authority());
+        assert!(Authority("fe80::a").has_dubious_authority());
+        assert!(Authority("2001:db8::dead:beef").has_dubious_authority());
+        assert!(Authority("example.net:873").has_dubious_authority());
+        assert!(!Authority("rpki.example.net").has_dubious_authority());
+        assert!(!Authority("1.2.3").has_dubious_authority());
+        kani::cover!(digits[0] == 9 && digits[3] == 0);
+    }
+}
